@@ -58,6 +58,14 @@ static int op_k_run(void) {
     /* emulated int128: only the two multiplication kernels are translated for this configuration */
     if (k_is(f, KSET_F, "fe_mul_inner_struct")) { if (!k_limbs("a", a, KFE) || !k_limbs("b", b, KFE)) return -1; secp256k1_fe_mul_inner(r, a, b); out_limbs(r, KFE); return 1; }
     if (k_is(f, KSET_F, "fe_sqr_inner_struct")) { if (!k_limbs("a", a, KFE)) return -1; secp256k1_fe_sqr_inner(r, a); out_limbs(r, KFE); return 1; }
+    {   /* the emulated 128-bit integer itself */
+        klimb x[1], y[1], o[2]; secp256k1_uint128 u;
+        if (k_is(f, "int128struct", "umul128")) { uint64_t hi; if (!k_limbs("a", x, 1) || !k_limbs("b", y, 1)) return -1; o[0] = secp256k1_umul128(x[0], y[0], &hi); o[1] = hi; out_limbs(&o[0], 1); out_limbs(&o[1], 1); return 1; }
+        if (k_is(f, "int128struct", "u128_mul")) { if (!k_limbs("a", x, 1) || !k_limbs("b", y, 1)) return -1; secp256k1_u128_mul(&u, x[0], y[0]); o[0] = u.lo; o[1] = u.hi; out_limbs(&o[0], 1); out_limbs(&o[1], 1); return 1; }
+        if (k_is(f, "int128struct", "u128_accum_mul")) { klimb lo[1], hi[1]; if (!k_limbs("a", x, 1) || !k_limbs("b", y, 1) || !k_limbs("r.lo", lo, 1) || !k_limbs("r.hi", hi, 1)) return -1; u.lo = lo[0]; u.hi = hi[0]; secp256k1_u128_accum_mul(&u, x[0], y[0]); o[0] = u.lo; o[1] = u.hi; out_limbs(&o[0], 1); out_limbs(&o[1], 1); return 1; }
+        if (k_is(f, "int128struct", "u128_accum_u64")) { klimb lo[1], hi[1]; if (!k_limbs("a", x, 1) || !k_limbs("r.lo", lo, 1) || !k_limbs("r.hi", hi, 1)) return -1; u.lo = lo[0]; u.hi = hi[0]; secp256k1_u128_accum_u64(&u, x[0]); o[0] = u.lo; o[1] = u.hi; out_limbs(&o[0], 1); out_limbs(&o[1], 1); return 1; }
+        if (k_is(f, "int128struct", "u128_rshift")) { klimb lo[1], hi[1]; if (!k_limbs("n", x, 1) || !k_limbs("r.lo", lo, 1) || !k_limbs("r.hi", hi, 1) || x[0] >= 128) return -1; u.lo = lo[0]; u.hi = hi[0]; secp256k1_u128_rshift(&u, (unsigned int)x[0]); o[0] = u.lo; o[1] = u.hi; out_limbs(&o[0], 1); out_limbs(&o[1], 1); return 1; }
+    }
     out_str("skip");
     return 1;
 #else
@@ -82,6 +90,7 @@ static int op_k_run(void) {
     if (k_is(f, KSET_S, "scalar_mul_512")) { if (!k_limbs("a.d", sa.d, KSC) || !k_limbs("b.d", sb.d, KSC)) return -1; secp256k1_scalar_mul_512(l16, &sa, &sb); out_limbs(l16, 2 * KSC); return 1; }
     if (k_is(f, KSET_S, "scalar_reduce_512")) { if (!k_limbs("l", l16, 2 * KSC)) return -1; secp256k1_scalar_reduce_512(&sr, l16); out_limbs(sr.d, KSC); return 1; }
     if (k_is(f, KSET_S, "scalar_mul")) { if (!k_limbs("a.d", sa.d, KSC) || !k_limbs("b.d", sb.d, KSC)) return -1; secp256k1_scalar_mul(&sr, &sa, &sb); out_limbs(sr.d, KSC); return 1; }
+    if (k_is(f, KSET_S, "scalar_mul_shift_var")) { klimb sh[1]; if (!k_limbs("a.d", sa.d, KSC) || !k_limbs("b.d", sb.d, KSC) || !k_limbs("shift", sh, 1) || sh[0] < 256 || sh[0] > 512) return -1; secp256k1_scalar_mul_shift_var(&sr, &sa, &sb, (unsigned int)sh[0]); out_limbs(sr.d, KSC); return 1; }
     if (k_is(f, KSET_S, "scalar_half")) { if (!k_limbs("a.d", sa.d, KSC)) return -1; secp256k1_scalar_half(&sr, &sa); out_limbs(sr.d, KSC); return 1; }
     if (k_is(f, KSET_S, "scalar_cadd_bit")) { klimb bit[1]; if (!k_limbs("r.d", sr.d, KSC) || !k_limbs("bit", bit, 1) || !k_limbs("flag", s, 1)) return -1; secp256k1_scalar_cadd_bit(&sr, (unsigned int)bit[0], (int)s[0]); out_limbs(sr.d, KSC); return 1; }
 #ifndef VERIFY
@@ -97,4 +106,53 @@ static int op_k_run(void) {
     return 1;
 #endif
 }
-static int ops_kernel(const char *op) { if (!strcmp(op, "k_run")) return op_k_run(); return 0; }
+/* f_run group.<def> <name=value>* / <out>* : the REAL group-level function on field values (mode F translation validation).
+ * Field inputs are 64 hex digits (loaded with secp256k1_fe_set_b32_mod: magnitude 1), integer inputs short hex. */
+static int f_find(const char *name, const char **val) {
+    int i; size_t l = strlen(name);
+    for (i = 1; i < g_argc; i++) { const char *s = A(i)->s; if (!strcmp(s, "/")) break; if (!strncmp(s, name, l) && s[l] == '=') { *val = s + l + 1; return 1; } }
+    return 0;
+}
+static int f_fe(const char *pre, const char *fld, secp256k1_fe *fe) {
+    char nm[64]; const char *v; unsigned char b[32]; int k;
+    if (fld) snprintf(nm, sizeof nm, "%s.%s", pre, fld); else snprintf(nm, sizeof nm, "%s", pre);
+    if (!f_find(nm, &v) || strlen(v) != 64) return 0;
+    for (k = 0; k < 32; k++) b[k] = (unsigned char)(hexval(v[2*k]) * 16 + hexval(v[2*k+1]));
+    secp256k1_fe_set_b32_mod(fe, b); return 1;
+}
+static int f_int(const char *pre, const char *fld, int *out) {
+    char nm[64]; const char *v; snprintf(nm, sizeof nm, "%s.%s", pre, fld);
+    if (!f_find(nm, &v)) return 0; *out = (int)strtoul(v, NULL, 16); return 1;
+}
+static int f_gej(const char *pre, secp256k1_gej *p) { memset(p, 0, sizeof *p); return f_fe(pre, "x", &p->x) && f_fe(pre, "y", &p->y) && f_fe(pre, "z", &p->z) && f_int(pre, "infinity", &p->infinity); }
+static int f_ge(const char *pre, secp256k1_ge *p) { memset(p, 0, sizeof *p); return f_fe(pre, "x", &p->x) && f_fe(pre, "y", &p->y) && f_int(pre, "infinity", &p->infinity); }
+static void f_out_fe(const secp256k1_fe *a) { secp256k1_fe t = *a; unsigned char b[32]; secp256k1_fe_normalize_var(&t); secp256k1_fe_get_b32(b, &t); out_hex(b, 32); }
+static void f_out_gej(const secp256k1_gej *p) { f_out_fe(&p->x); f_out_fe(&p->y); f_out_fe(&p->z); out_int(p->infinity); }
+static void f_out_ge(const secp256k1_ge *p) { f_out_fe(&p->x); f_out_fe(&p->y); out_int(p->infinity); }
+static int op_f_run(void) {
+    const char *f; secp256k1_gej ja, jb, jr; secp256k1_ge ga, gb, gr; secp256k1_fe fz, rzr;
+    if (g_argc < 1) return -1;
+    f = A(0)->s;
+    memset(&jr, 0, sizeof jr); memset(&gr, 0, sizeof gr);
+    if (!strcmp(f, "group.gej_double")) { if (!f_gej("a", &ja)) return -1; secp256k1_gej_double(&jr, &ja); f_out_gej(&jr); return 1; }
+    if (!strcmp(f, "group.gej_double_inplace")) { if (!f_gej("r", &jr)) return -1; secp256k1_gej_double(&jr, &jr); f_out_gej(&jr); return 1; }
+    if (!strcmp(f, "group.gej_double_var")) { if (!f_gej("a", &ja)) return -1; secp256k1_gej_double_var(&jr, &ja, &rzr); f_out_gej(&jr); f_out_fe(&rzr); return 1; }
+    if (!strcmp(f, "group.gej_add_var")) { if (!f_gej("a", &ja) || !f_gej("b", &jb)) return -1; secp256k1_gej_add_var(&jr, &ja, &jb, NULL); f_out_gej(&jr); return 1; }
+    if (!strcmp(f, "group.gej_add_ge_var")) { if (!f_gej("a", &ja) || !f_ge("b", &gb)) return -1; secp256k1_gej_add_ge_var(&jr, &ja, &gb, NULL); f_out_gej(&jr); return 1; }
+    if (!strcmp(f, "group.gej_add_ge_var_inplace")) { if (!f_gej("r", &jr) || !f_ge("b", &gb)) return -1; secp256k1_gej_add_ge_var(&jr, &jr, &gb, NULL); f_out_gej(&jr); return 1; }
+    if (!strcmp(f, "group.gej_add_zinv_var")) { if (!f_gej("a", &ja) || !f_ge("b", &gb) || !f_fe("bzinv", NULL, &fz)) return -1; secp256k1_gej_add_zinv_var(&jr, &ja, &gb, &fz); f_out_gej(&jr); return 1; }
+    if (!strcmp(f, "group.gej_add_ge")) { if (!f_gej("a", &ja) || !f_ge("b", &gb)) return -1; secp256k1_gej_add_ge(&jr, &ja, &gb); f_out_gej(&jr); return 1; }
+    if (!strcmp(f, "group.gej_add_ge_inplace")) { if (!f_gej("r", &jr) || !f_ge("b", &gb)) return -1; secp256k1_gej_add_ge(&jr, &jr, &gb); f_out_gej(&jr); return 1; }
+    if (!strcmp(f, "group.gej_neg")) { if (!f_gej("a", &ja)) return -1; secp256k1_gej_neg(&jr, &ja); f_out_gej(&jr); return 1; }
+    if (!strcmp(f, "group.ge_neg")) { if (!f_ge("a", &ga)) return -1; secp256k1_ge_neg(&gr, &ga); f_out_ge(&gr); return 1; }
+    if (!strcmp(f, "group.gej_set_ge")) { if (!f_ge("a", &ga)) return -1; secp256k1_gej_set_ge(&jr, &ga); f_out_gej(&jr); return 1; }
+    if (!strcmp(f, "group.gej_rescale")) { if (!f_gej("r", &jr) || !f_fe("s", NULL, &fz)) return -1; secp256k1_gej_rescale(&jr, &fz); f_out_gej(&jr); return 1; }
+    if (!strcmp(f, "group.ge_set_gej_zinv")) { if (!f_gej("a", &ja) || !f_fe("zi", NULL, &fz)) return -1; secp256k1_ge_set_gej_zinv(&gr, &ja, &fz); f_out_ge(&gr); return 1; }
+    if (!strcmp(f, "group.ge_set_ge_zinv")) { if (!f_ge("a", &ga) || !f_fe("zi", NULL, &fz)) return -1; secp256k1_ge_set_ge_zinv(&gr, &ga, &fz); f_out_ge(&gr); return 1; }
+    if (!strcmp(f, "group.gej_eq_x_var")) { if (!f_gej("a", &ja) || !f_fe("x", NULL, &fz)) return -1; out_int(secp256k1_gej_eq_x_var(&fz, &ja)); return 1; }
+    if (!strcmp(f, "group.ge_is_valid_var")) { if (!f_ge("a", &ga)) return -1; out_int(secp256k1_ge_is_valid_var(&ga)); return 1; }
+    (void)ga; (void)jb;
+    out_str("skip");
+    return 1;
+}
+static int ops_kernel(const char *op) { if (!strcmp(op, "k_run")) return op_k_run(); if (!strcmp(op, "f_run")) return op_f_run(); return 0; }
